@@ -78,6 +78,49 @@ def _origin(g, d, name: str, depth: int = 0):
     return None
 
 
+_PURE = (ast.Name, ast.Constant, ast.BinOp, ast.UnaryOp, ast.Tuple, ast.List, ast.operator, ast.unaryop, ast.expr_context)
+
+
+def _value_at(g, e, at, depth: int = 0):
+    """copy of `e` (read at CFG node `at`) in which a local that merely holds a saved arithmetic value (`lo, hi = T, T + step`, `span = (T, T + step)`;
+    exactly one reaching definition, right-hand side built from names, numbers, + - * / and tuples only) is replaced by that value -- but only when every
+    name the saved value reads has, on entry of the saving statement, exactly the definitions that reach `at`: then the saved value IS the value the
+    expression has at `at`.  A bracket end saved BEFORE the scanning loop holds the start temperature, not the final one; it is left alone (and the
+    comparison that follows fails)."""
+    if e is None or at is None or depth > 4:
+        return e
+
+    def saved(name: str):
+        ds = g.reaching_defs(at, name)
+        if len(ds) != 1 or ds[0] is CFG.ENTRY:
+            return None
+        d = ds[0]
+        if isinstance(d, ast.AnnAssign) and isinstance(d.target, ast.Name) and d.target.id == name and d.value is not None:
+            pairs = [(d.target, d.value)]
+        elif isinstance(d, ast.Assign):
+            pairs = _pairs(d)
+        else:
+            return None
+        vals = [v_ for t_, v_ in pairs if isinstance(t_, ast.Name) and t_.id == name]
+        if len(vals) != 1 or not all(isinstance(x, _PURE) for x in ast.walk(vals[0])):
+            return None
+        v = vals[0]
+        for y in {x.id for x in ast.walk(v) if isinstance(x, ast.Name)}:
+            if set(map(id, g.reaching_defs(d, y))) != set(map(id, g.reaching_defs(at, y))):
+                return None
+        return _value_at(g, v, d, depth + 1)
+
+    class R(ast.NodeTransformer):
+        def visit_Name(self, x):
+            if isinstance(x.ctx, ast.Load):
+                v = saved(x.id)
+                if v is not None:
+                    return v
+            return x
+
+    return R().visit(copy.deepcopy(e))
+
+
 def _directions(fi, rk_stmt, cx):
     """(end temperature of pass 0, of pass 1, name of the pass index) of the `for` loop around the integrator"""
     loops = [x for x in own_nodes(fi.node) if isinstance(x, ast.For) and any(y is rk_stmt for y in ast.walk(x))]
@@ -472,7 +515,12 @@ def rules(chk: Check) -> None:
                 any(eqx(s_, f"{Tn_} -= {St_}") or eqx(s_, f"{Tn_} = {Tn_} - {St_}") for s_ in loop[0].body)
     chk.ob("R11.4", sf.where(), "the coarse scan starts at TMax and steps downward by dT while staying above TMin", ok, key="scan")
     # refinement bracket [Tc, Tc + step]: Tc is the scan variable (or the value the scanning helper returned), step the scan step
-    br = kwarg(rs[0], "bracket")
+    # The ends may be saved in locals first (`lo, hi = T, T + TStep`; `bracket=(lo, hi)`): they are looked through only when they are saved where the
+    # scan variable already has its final value (same reaching definitions as at the call of the root finder), never through Ctx, which would
+    # also accept an end computed from the start temperature before the loop.
+    gc = CFG(fc.node)
+    rs_node = gc.node_of(rs[0])
+    br = _value_at(gc, kwarg(rs[0], "bracket"), rs_node)
     ok = False
     if isinstance(br, (ast.Tuple, ast.List)) and len(br.elts) == 2 and isinstance(br.elts[0], ast.Name):
         Tc = br.elts[0].id
@@ -482,10 +530,11 @@ def rules(chk: Check) -> None:
         else:
             okT = any(isinstance(st, ast.Assign) and st.value is scan_call and n(st.targets[0]) == Tc for st in own_nodes(fc.node))
             stepc = bind.get(St_) if St_ in bind else None
-        ok = okT and stepc is not None and eqx(br.elts[1], f"{Tc} + {n(stepc)}", cc)
+        if okT and stepc is not None:
+            want = _value_at(gc, ast.BinOp(left=ast.Name(id=Tc, ctx=ast.Load()), op=ast.Add(), right=copy.deepcopy(stepc)), rs_node)
+            ok = same(br.elts[1], want, cc)
     chk.ob("R11.4", fc.where(), "the crossing is refined by a bracketed root on the last step [T, T + dT]", ok, key="refine")
     # every path on which the scan ends without a sign change, or the refinement reports non-convergence, ends in a raise
-    gc = CFG(fc.node)
     if sf is fc:
         ok = _raises_unless(gc, fc, rs[0], loop[0] if loop else None)
     else:
@@ -527,7 +576,7 @@ def rules(chk: Check) -> None:
            "; ".join(f"{f.qual} mutates class-level `{a}` of {c}" for f, x, c, a in mine)[:300], key="per-instance-state")
     # ---- R11.7 the refined critical temperature / re-minimised locations are actually used
     from .shared import solver_results_consumed
-    chk.stage(solver_results_consumed, chk, "R11.7", ("thermodynamics", "freeEnergy", "effectivePotential"), 2)
+    chk.stage(solver_results_consumed, chk, "R11.7", ("thermodynamics", "freeEnergy", "effectivePotential"), 1)
     fin = S.func(f"{FE}.__init__")
     created = {t.attr for s_ in ast.walk(fin.node) if isinstance(s_, ast.Assign) for t in s_.targets
                if isinstance(t, ast.Attribute) and isinstance(t.value, ast.Name) and t.value.id == "self"}
